@@ -96,6 +96,22 @@ fn on_big_forward(r: Receiver<Big>, s: Sender<(Big, Noise, BigT)>, f: Fetcher<En
         s.send_to(e, BigT { tag: b.tag, data: b.data });
     }
 }
+// a component whose removal despawns several entities in one flush (several root events), and a Despawn listener
+// that allocates a payload per despawned entity and sends it on
+#[derive(Component)]
+struct Doomed(u64);
+thread_local! { static DOOM_TAG: RefCell<u64> = RefCell::new(0); }
+fn on_despawn(r: Receiver<Despawn, EntityId>, s: Sender<(Big, Noise)>) {
+    let base = DOOM_TAG.with(|t| *t.borrow());
+    if base == 0 {
+        return;
+    }
+    let tag = base + (r.query.index().0 as u64 % 5);
+    let data = s.alloc_slice(300 + (tag % 7) as usize * 100, |i| pattern(tag, i));
+    let name = s.alloc_str(&label(tag));
+    s.send(Big { depth: 1, fanout: 2, tag, data, name });
+    s.send(Noise(tag));
+}
 fn on_big_second(r: Receiver<Big>) {
     verify("second receiver", r.event.tag, r.event.data, Some(r.event.name));
 }
@@ -130,6 +146,7 @@ fn main() {
     world.add_handler(on_big_second);
     world.add_handler(on_bigt);
     world.add_handler(on_noise);
+    world.add_handler(on_despawn);
     for _ in 0..3 {
         world.spawn();
     }
@@ -161,6 +178,22 @@ fn main() {
                 reset_errors.push(format!("round {round}: a handler ran after an arena reset inside the same top-level send (len={len} fanout={fanout} depth={depth})"));
             }
         });
+        if round % 5 == 4 {
+            // a flush that starts with several queued events: removing a component type held by 2..5 entities
+            let n = 2 + (rng.next() % 4);
+            for i in 0..n {
+                let e = world.spawn();
+                world.insert(e, Doomed(i));
+            }
+            DOOM_TAG.with(|t| *t.borrow_mut() = 1_000_000 + round * 10);
+            let c = world.add_component::<Doomed>();
+            world.remove_component(c);
+            DOOM_TAG.with(|t| *t.borrow_mut() = 0);
+            sends += 1;
+            for _ in 0..2 {
+                world.spawn(); // keep a few entities around for the targeted forwards
+            }
+        }
     }
     let errs = ERRORS.with(|e| e.borrow().clone());
     for l in errs.iter().chain(reset_errors.iter()).take(20) {
